@@ -245,6 +245,15 @@ def voronoiSpec (shape : List Nat) (lab : Array Int) (p : List Int) : List Int :
     ((List.range (shapeSize shape)).filterMap fun i =>
       if sel.getD i false && sqDist p (unravelI shape i) == d then some (lab.getD i 0) else none).eraseDups
 
+/-! ### `segmentation.gvoronoi` (every rank since the round-4 repair) -/
+
+/-- `gvoronoi(labeled)`: `bw = (labeled == 0)`, the transform of `bw` with `orig = arange(size)` tracked through
+`_distance.dt` (one call for a 2-D image, the per-axis loop over `(1, n)` line views of `f` AND `orig` otherwise —
+both are what `distanceModel` does), result `labeled.flat[orig]` in C order. -/
+def gvoronoiModel (shape : List Nat) (lab : Array Int) : List Int :=
+  let bw := lab.map fun l => if l == 0 then (1 : Int) else 0
+  (distanceModel shape bw).2.toList.map fun i => lab.getD i.toNat 0
+
 /-! ### driver entry -/
 
 def showAcc (xs : List (List Int)) : String :=
@@ -267,8 +276,7 @@ def handle (a : Args) : String :=
     let bw := lab.map fun l => if l == 0 then (1 : Int) else 0
     let o := (distanceCoord shape bw).2.data
     let model := o.toList.map fun i => lab.getD i.toNat 0
-    let ofl := (distanceModel shape bw).2
-    let flat := ofl.toList.map fun i => lab.getD i.toNat 0
+    let flat := gvoronoiModel shape lab
     let acc := (allPos shape).map (voronoiSpec shape lab)
     s!"acc={showAcc acc} model={showInts model} flat={showInts flat}"
   | "distl" =>
